@@ -5,3 +5,4 @@ import PintModel.Gen.DefaultRegistry
 import PintModel.DriverOps
 import PintModel.Model.Quantity
 import PintModel.Model.Pi
+import PintModel.Model.EvalTree
